@@ -98,7 +98,7 @@ func GenScript(r *hx.Rand, kinds []string, nops int) []string {
 				open = append(open[:j], open[j+1:]...)
 			}
 		case x < 70:
-			script = append(script, fmt.Sprintf("get %d", r.Intn(total)))
+			script = append(script, fmt.Sprintf("get %d %s", r.Intn(total), []string{"s", "s", "s", "r", "c", "w", "a", "p", "d"}[r.Intn(9)]))
 		case x < 85:
 			n := r.Range(1, 3)
 			var os []string
